@@ -442,50 +442,7 @@ def generate(repo):
     out.add('g_titration', titration)
 
     # ---- Omega, Omega_seq, kappa_X, __parse_group
-    def omega():
-        f = S('Omega')
-        loops = _recode_loop(f)
-        need(len(loops) == 1 and len(loops[0]) == 2, 'Omega: one two-armed recode loop expected')
-        (t, a), (_, b) = loops[0]
-        tail = [ast.unparse(x) for x in strip_doc(f.body)[-2:]]
-        need(tail == ['augmented_seq = Sequence(newseq)', 'return augmented_seq.kappa()'], 'Omega tail: %s' % tail)
-        return ('Definition g_omega_members : list aa := %s.\nDefinition g_omega_in : aa := %s.\n'
-                'Definition g_omega_out : aa := %s.' % (coq_list([coq_aa1(c) for c in _members(t)]), coq_aa1(a), coq_aa1(b)))
-    out.add('g_omega', omega)
-
-    def omega_seq():
-        f = S('Omega_seq')
-        loops = _recode_loop(f)
-        need(len(loops) == 1 and len(loops[0]) == 2, 'Omega_seq: one two-armed recode loop expected')
-        (t, a), (_, b) = loops[0]
-        need(ast.unparse(strip_doc(f.body)[-1]) == 'return newseq', 'Omega_seq return')
-        return ('Definition g_omegaseq_members : list aa := %s.\nDefinition g_omegaseq_in : string := %s.\n'
-                'Definition g_omegaseq_out : string := %s.' % (coq_list([coq_aa1(c) for c in _members(t)]), coq_str(a), coq_str(b)))
-    out.add('g_omega_seq', omega_seq)
-
-    def kappa_x():
-        f = S('kappa_X')
-        body = strip_doc(f.body)
-        src = [ast.unparse(x) for x in body]
-        need(src[0] == 'grp1 = self.__parse_group(grp1)', 'kappa_X: grp1 parse')
-        need(src[1].replace('\n', ' ').split() == 'if grp2:     grp2 = self.__parse_group(grp2)'.split(), 'kappa_X: grp2 parse: ' + src[1])
-        need(isinstance(body[2], ast.If) and ast.unparse(body[2].test) == 'grp2', 'kappa_X: branch on grp2')
-        need(src[3:] == ['augmented_seq = Sequence(newseq)', 'return augmented_seq.kappa()'], 'kappa_X tail')
-        loops = _recode_loop(f)
-        need(len(loops) == 2 and len(loops[0]) == 3 and len(loops[1]) == 2, 'kappa_X: recode loops')
-        (t1, a), (t2, b), (_, c) = loops[0]
-        (t3, d), (_, e) = loops[1]
-        need([ast.unparse(t) for t in (t1, t2, t3)] == ['res in grp1', 'res in grp2', 'res in grp1'], 'kappa_X: tests')
-        return 'Definition g_kappaX_letters : list aa := %s.' % coq_list([coq_aa1(x) for x in (a, b, c, d, e)])
-    out.add('g_kappaX', kappa_x)
-
-    def parse_group():
-        f = S('_Sequence__parse_group') if False else find_func(tree, '__parse_group', 'Sequence')
-        src = ast.unparse(f)
-        need('localgrp = set([x.upper() for x in localgrp])' in src, '__parse_group: upper-casing set')
-        need('if res not in aminoacids.TWENTY_AAs:' in src and 'return localgrp' in src, '__parse_group: membership in TWENTY_AAs')
-        return 'Definition g_parse_group_uppercases_and_checks_twenty : bool := true.'
-    out.add('g_parse_group', parse_group)
+    # Omega / Omega_seq / kappa_X / __parse_group are tied semantically (g_minipy -> Props/Tie/minipy_kappax_tie.v)
 
     # ---- phasePlotRegion cascade, over Q and over binary64
     def region(be, name):
